@@ -1,8 +1,8 @@
 CFG = dict(
     prop="C08", level="proof", harness="c08",
     props_files=["theories/Props/C08.v"], corr_file="theories/Corr/C08.v", corr_module="Corr.C08",
-    groups={"linepos": True, "viol": True, "marker": False},
-    show_fn={"linepos": "model_linepos", "viol": "model_viol", "marker": "model_marker"},
+    groups={"linepos": True, "viol": True, "marker": False, "parent": False},
+    show_fn={"linepos": "model_linepos", "viol": "model_viol", "marker": "model_marker", "parent": "model_parent"},
     shard=100,
     design_ref="DESIGN.md 6.8",
     technique="Coq proof (newline table + partition point = scan specification, by induction over the text with an offset "
